@@ -3,10 +3,11 @@ import core
 import pipeline
 
 PID = 'C09'
-PROOF_MODULES = ['ChamProofs.Props.C09']
+PROOF_MODULES = ['ChamProofs.Props.C09', 'ChamProofs.Props.C09Name']
 THEOREMS = ['ChamVerif.C09_slot_default', 'ChamVerif.C09_slot_filled', 'ChamVerif.C09_locals_private', 'ChamVerif.C09_globals_reach_caller',
             'ChamVerif.C09_resolve_pops_rightmost', 'ChamVerif.C09_updateOwn_get', 'ChamVerif.C09_macro_enter',
-            'ChamVerif.C09_macro_names_resolve_in_its_template']
+            'ChamVerif.C09_macro_names_resolve_in_its_template',
+            'ChamVerif.C09_macroname_scoped']
 LEVEL_TEXT = ('Proved in Lean on the interpreter model: a define-slot region whose slot variable is empty renders exactly its default content '
               '(C09_slot_default) and one whose variable holds a filler renders exactly that filler, in a copy of the macro\'s scope and with '
               'the i18n settings and cached values of the place where the filler was written (C09_slot_filled); after a macro call the caller\'s '
@@ -18,7 +19,8 @@ LEVEL_TEXT = ('Proved in Lean on the interpreter model: a define-slot region who
               'each generated (library, caller) pair and its hand-inlined METAL-free equivalent; the interpreter model is tied to the '
               'code by correspondence on the same-template pairs, on (library template, caller) pairs and on whole templates used as macros; a '
               'macro of another template runs with the template id of its own template (C09_macro_enter), so that `macros` and `template` inside '
-              'it denote the library, not the caller (C09_macro_names_resolve_in_its_template).')
+              'it denote the library, not the caller (C09_macro_names_resolve_in_its_template).'
+              ' After a metal:use-macro has finished, macroname is what it was before, whatever nested uses bound it to (C09_macroname_scoped).')
 LEVEL_NOTE = ('Trusted: Lean kernel; the interpreter model; the harness\'s inliner (independent of Chameleon). Macros of other templates '
               '(lib.macros[...]) and whole templates used as macros are in the model since round 6 (library templates are compiled by the '
               'same builder; a macro runs with the macros of the template it was written in: Frame.tid); `load:` is not. Known findings: D-09a (an unused filler is picked up by a '
